@@ -8,7 +8,7 @@
 From Coq Require Import List NArith ZArith Bool Ascii String.
 From Qryn Require Import model.GoFloat model.JsonStream proofs.JsonStreamProofs proofs.JsonSpliceProofs
   proofs.GoFloatProofs proofs.JsonNumProofs proofs.JsonSeriesProofs proofs.GoMarshalProofs proofs.GoFloatReadProofs proofs.GoFloatRoundProofs
-  proofs.GoFloatExactProofs proofs.GoFloatShortestProofs proofs.GoFloatMsProofs model.RespOptimizer proofs.RespOptimizerProofs.
+  proofs.GoFloatExactProofs proofs.GoFloatShortestProofs proofs.GoFloatMsProofs model.RespOptimizer proofs.RespOptimizerProofs model.JsonPyro proofs.JsonPyroProofs.
 Import ListNotations.
 Open Scope string_scope.
 Open Scope list_scope.
@@ -153,7 +153,7 @@ Print Assumptions doc_wellformed_labels.
    character (an object, as all of these are), the body is the one intended document *)
 Theorem doc_wellformed_series : forall xs ds, Forall2 piece_ok xs ds ->
   parse_bytes (enc_series_bytes xs) = Some (doc_series_of ds).
-Proof. exact series_bytes. Qed.
+Proof. exact JsonSpliceProofs.series_bytes. Qed.
 Print Assumptions doc_wellformed_series.
 
 Theorem doc_wellformed_trace : forall xs ds, Forall2 piece_ok xs ds ->
@@ -604,3 +604,85 @@ Theorem one_object_per_stream_optimized_refuted : exists bs, forall os,
   ~ NoDup (heads (rows_streams (optimize flush_threshold os bs))).
 Proof. eexists. exact optimize_splits_streams_at_3000. Qed.
 Print Assumptions one_object_per_stream_optimized_refuted.
+
+(* ------------------------------------------------------------------------------------------ *)
+(* Pyroscope JSON bodies (reader/controller/profController.go). writeResponse for a JSON client is protojson.Marshal of the
+   response message: [pyro_body sp v] are its bytes for the message v (a tree of fields in declaration order: lowerCamel names,
+   unpopulated fields omitted, int64 between quotes, NaN / infinities as strings, protojson's own escaper [pj_body]); [sp] is the
+   per-binary coin of protojson (a space after every comma): every theorem holds for both values. *)
+
+(* protojson's escaper: the reader returns exactly the bytes (the message only reaches it when they are UTF-8) *)
+Theorem pyro_string_escaping : forall s rest, lex_str (pj_body s ++ String (chr 34) rest)%string = Some (s, rest).
+Proof. exact pj_string_escaping. Qed.
+Print Assumptions pyro_string_escaping.
+
+Theorem doc_wellformed_protojson : forall sp d, nums_ok d = true -> parse_bytes (render_pj (pj_tokens sp d)) = Some d.
+Proof. exact protojson_bytes. Qed.
+Print Assumptions doc_wellformed_protojson.
+
+(* every message whose strings are UTF-8: one document, the protojson mapping of the message *)
+Theorem doc_wellformed_pyro_response_partial : forall sp v, pj_bad v = None -> parse_bytes (pyro_body sp v) = Some (pj_json v).
+Proof. exact pyro_ok_bytes. Qed.
+Print Assumptions doc_wellformed_pyro_response_partial.
+
+(* a message holding a string that is not UTF-8 is refused by Marshal: status 500, the body is one JSON string (the error text),
+   none of the rows (finding pyro-invalid-utf8-answered-500) *)
+Theorem pyro_refusal_is_one_string : forall sp v f, pj_bad v = Some f ->
+  pyro_status v = 500%N /\ parse_bytes (pyro_body sp v) = Some (JStr (pj_err_msg sp f)).
+Proof. exact pyro_refusal_bytes. Qed.
+Print Assumptions pyro_refusal_is_one_string.
+
+(* so "strings containing any bytes" is false of these endpoints: one stored label value with the byte 0xff and the
+   body is not the document of the rows, for either coin *)
+Theorem doc_wellformed_pyro_response_refuted : exists names, forall sp,
+  parse_bytes (pyro_body sp (msg_label_values names)) <> Some (sanitize_doc (pj_json (msg_label_values names))).
+Proof. exact pyro_any_bytes_refuted. Qed.
+Print Assumptions doc_wellformed_pyro_response_refuted.
+
+(* the endpoints, with the messages as the handlers and ProfService fill them *)
+Theorem doc_wellformed_pyro_label_names : forall sp names, forallb utf8_ok names = true ->
+  parse_bytes (pyro_body sp (msg_label_names names)) = Some (doc_label_names names).
+Proof. exact label_names_bytes. Qed.
+Print Assumptions doc_wellformed_pyro_label_names.
+
+Theorem doc_wellformed_pyro_label_values : forall sp names, forallb utf8_ok names = true ->
+  parse_bytes (pyro_body sp (msg_label_values names)) = Some (doc_label_values names).
+Proof. exact label_values_bytes. Qed.
+Print Assumptions doc_wellformed_pyro_label_values.
+
+Theorem doc_wellformed_pyro_series : forall sp rows, pj_bad (msg_series rows) = None ->
+  parse_bytes (pyro_body sp (msg_series rows)) = Some (pj_json (msg_series rows)).
+Proof. exact JsonPyroProofs.series_bytes. Qed.
+Print Assumptions doc_wellformed_pyro_series.
+
+Theorem doc_wellformed_pyro_profile_types : forall sp rows, pj_bad (msg_profile_types rows) = None ->
+  parse_bytes (pyro_body sp (msg_profile_types rows)) = Some (pj_json (msg_profile_types rows)).
+Proof. exact profile_types_bytes. Qed.
+Print Assumptions doc_wellformed_pyro_profile_types.
+
+Theorem doc_wellformed_pyro_select_series : forall sp rows, pj_bad (msg_select_series rows) = None ->
+  parse_bytes (pyro_body sp (msg_select_series rows)) = Some (pj_json (msg_select_series rows)).
+Proof. exact select_series_bytes. Qed.
+Print Assumptions doc_wellformed_pyro_select_series.
+
+(* SelectSeries groups the rows by runs of equal fingerprint (`lastFp != fp || lastFp == 0`): every point is listed once, in order *)
+Theorem pyro_select_series_every_point_once : forall rows, flat_map ps_points (select_series rows) = map row_point rows.
+Proof. exact select_series_points. Qed.
+Print Assumptions pyro_select_series_every_point_once.
+
+(* /pyroscope/render-diff: json.NewEncoder(w).Encode(FlamebearerProfileV1), the encoding/json struct walk plus a line break:
+   one document for EVERY profile value (names of any bytes, nil slices and maps, any numbers) *)
+Theorem doc_wellformed_pyro_render_diff : forall p, parse_bytes (render (enc_render_diff p)) = Some (doc_render_diff p).
+Proof. exact render_diff_bytes. Qed.
+Print Assumptions doc_wellformed_pyro_render_diff.
+
+(* the error answers (defaultError) after the repair: json.Marshal of the message is one JSON string for EVERY message ... *)
+Theorem doc_wellformed_pyro_error_body : forall msg, parse_bytes (gojson_quote msg) = Some (JStr (sanitize msg)).
+Proof. exact error_body_bytes. Qed.
+Print Assumptions doc_wellformed_pyro_error_body.
+
+(* ... while strconv.Quote, which it used before, is not JSON for some ASCII message (a query text with the byte 0x01 echoed
+   by the parse error) and is the JSON string only for the safe characters *)
+Theorem pyro_error_body_before_repair_refuted : exists msg, ascii_only msg = true /\ parse_bytes (go_quote_ascii msg) = None.
+Proof. exact go_quote_not_json. Qed.
+Print Assumptions pyro_error_body_before_repair_refuted.
